@@ -486,6 +486,30 @@ def run(ctx):
         for idx in mism[:2]:
             ctx.problem('correspondence', 'suite alloc_generated: the allocation code generated from base.py and the implementation disagree after history %s; impl=%s'
                         % (cases[idx][1][:800], cases[idx][2][:800]), inputs={'history': cases[idx][1]}, failing_input_found=False)
+    # make_variable_map GENERATED from compilers.py (Gen/GenVarMap.v) against the implementation on random shapes and column lists
+    import sageopt.coniclifts as cl_
+    from sageopt.coniclifts.compilers import make_variable_map
+    vmc = []
+    for _ in range(ctx.n(40, 300)):
+        sh = ctx.rng.choice([(3,), (2, 3), (3, 2), (2, 2, 2), (1, 3, 2), (4, 1), (2, 1, 2, 2), (1,)])
+        k = int(np.prod(sh))
+        cols = [ctx.rng.randint(-1, 40) for _ in range(k)]
+        with warnings.catch_warnings():
+            warnings.simplefilter('ignore')
+            vv = cl_.Variable(shape=sh, name='vmgen')
+            got = make_variable_map([vv], [np.array(cols)])['vmgen']
+        vmc.append(({'shape': list(sh), 'cols': cols}, cq(([Nat(d) for d in sh], cols)), cq([int(t) for t in np.asarray(got).ravel().tolist()])))
+    gh = HEADER.replace('Model.Alloc Base.Corr.', 'Model.Alloc Model.AllocIdioms Gen.GenVarMap Base.Corr.')
+    mism, err = vlib.run_suite_in_coq(ctx.pid, 'variable_map_generated', gh, 'fun x => map (gen_variable_map_entry (fst x) (snd x)) (index_tuples (fst x))',
+                                      'list_eqb Z.eqb', 'list nat * list Z', 'list Z', [(c[1], c[2]) for c in vmc], shard=150)
+    ctx.suites['variable_map_generated'] = {'cases': len(vmc), 'mismatches': None if mism is None else len(mism)}
+    ctx.evaluations += len(vmc)
+    if err:
+        ctx.problem('correspondence', 'suite variable_map_generated: ' + err)
+    else:
+        for idx in mism[:2]:
+            ctx.problem('correspondence', 'suite variable_map_generated: make_variable_map generated from compilers.py and the implementation disagree on %s; impl (row-major)=%s'
+                        % (vmc[idx][0], vmc[idx][2][:300]), inputs={'case': vmc[idx][0]}, failing_input_found=False)
     for name, f in (('pickle_roundtrips', oracle_pickle), ('builder_names', oracle_builder_names)):
         why = f(ctx.rng)
         ctx.suites[name] = {'cases': 1, 'failure': why}
